@@ -85,11 +85,22 @@ type StreamNet struct {
 	// gates: addresses whose connection attempts are kept waiting until Release
 	gates   map[string]chan struct{}
 	waiting map[string]int64
+	// res: the spellings under which addresses can be dialed (see resolver); the
+	// dial function reports the canonical address as the connection's remote address
+	res resolver
+}
+
+// Alias registers a host name for the canonical address (see resolver).
+func (n *StreamNet) Alias(alias, canonical string) {
+	n.mu.Lock()
+	n.res.names[canonical] = true
+	n.res.aliases[alias] = canonical
+	n.mu.Unlock()
 }
 
 // NewStreamNet builds an empty stream network.
 func NewStreamNet() *StreamNet {
-	return &StreamNet{table: map[string]*StreamRemote{}, open: map[string][]*PipeEnd{}, gates: map[string]chan struct{}{}, waiting: map[string]int64{}}
+	return &StreamNet{table: map[string]*StreamRemote{}, open: map[string][]*PipeEnd{}, gates: map[string]chan struct{}{}, waiting: map[string]int64{}, res: newResolver()}
 }
 
 // Hold keeps every connection attempt to addr waiting (in the dial function)
@@ -129,6 +140,7 @@ func (n *StreamNet) Refused() int64 { return n.refused.Load() }
 // Serve (re)binds addr; connections made through the previous binding are reset.
 func (n *StreamNet) Serve(addr string, r *StreamRemote) {
 	n.mu.Lock()
+	n.res.names[addr] = true
 	old := n.open[addr]
 	delete(n.open, addr)
 	if r == nil {
@@ -144,9 +156,10 @@ func (n *StreamNet) Serve(addr string, r *StreamRemote) {
 
 // DialFunc returns the conn.AddrDialFunc of a node whose own address is home.
 func (n *StreamNet) DialFunc(home string) conn.AddrDialFunc {
-	return func(ctx context.Context, addr string) (io.ReadWriteCloser, net.Addr, error) {
+	return func(ctx context.Context, dialed string) (io.ReadWriteCloser, net.Addr, error) {
 		n.dials.Add(1)
 		n.mu.Lock()
+		addr := n.res.resolve(dialed)
 		if g := n.gates[addr]; g != nil {
 			n.waiting[addr]++
 			n.mu.Unlock()
